@@ -70,10 +70,6 @@ structure ImplOK (zeroCode : Variant) (env : Env) (cfg : Cfg) (req : ReqPacket) 
   msg    : ∀ e, out.err = some e → e.msg.length < 2 ^ 32
   fits   : ((rsp2Byte (replyPacket zeroCode env req sig out)).length : Int) ≤ cfg.maxLen
 
-/-- the caller's out variables hold zero values (fresh variables) -/
-def OutsFresh (env : Env) (sig : Sig) (args : List Val) : Prop :=
-  OldOKs env (outFields sig) (outVals sig.params args)
-
 /-- what the caller's `opts` maps hold after the proxy's copy-back of the response context `rctx` and
     status `rst`: one map given → it holds the response context; two → context and status; none (or
     more than two) → nothing is copied.  A nil map stays nil (current code: it is skipped). -/
